@@ -10,7 +10,7 @@
 //! Sub-checks
 //! * `exhaustive` — every operator × operand widths 1..=4 (quick and thorough)
 //!   × all 4-state operand values × signedness × a list of context widths
-//!   (own width, +1, +2, and 32/63/64/65/70 so that the same small operands
+//!   (own width, +1, 63, 64, 65; thorough also +2, 7, 32, 70 — so that the same small operands
 //!   also go through the big-integer code).
 //! * `random`     — operand widths up to 256, corner-biased values, boundary
 //!   widths over-weighted; also relation 2: the result at a context ≤ 64 bits
@@ -280,7 +280,9 @@ pub mod known {
     /// to the low bits of the whole const.
     pub const SELECT_XZ: &str = "part-select-with-xz-result-reads-low-bits";
     /// Reference to a const whose initialiser's signedness differs from the
-    /// declared type (excluded from the generator by construction).
+    /// declared type (excluded from the generator by construction; only its
+    /// reproducer produces this key).
+    #[allow(dead_code)]
     pub const CONST_REF: &str = "const-ref-signedness-from-initializer";
 }
 
@@ -599,9 +601,9 @@ impl CfgResult {
 }
 
 fn context_widths(base: usize, full: bool) -> Vec<usize> {
-    let mut v = vec![base, base + 1, 64, 65];
+    let mut v = vec![base, base + 1, 63, 64, 65];
     if full {
-        v.extend([base + 2, 7, 32, 63, 70]);
+        v.extend([base + 2, 7, 32, 70]);
     }
     v.retain(|w| *w >= base);
     v.sort();
@@ -990,20 +992,24 @@ pub fn run(ctx: &Ctx) {
     let lap = |name: &str, since: std::time::Instant| {
         ctx.note(&format!("wall_s_{name}"), json!((since.elapsed().as_secs_f64() * 10.0).round() / 10.0));
     };
+    if let Some(o) = &only {
+        ctx.note("partial_run_only", json!(o));
+    }
     ctx.run_payloads("api", replay_api);
+    crate::c17lang::replay_known(ctx);
     if !ctx.replay_mode() && want("exhaustive") {
         exhaustive(ctx);
         lap("exhaustive", t0);
     }
     if want("random") {
         let t = std::time::Instant::now();
-        let n = ctx.scale(200_000, 5_000_000);
+        let n = ctx.scale(600_000, 8_000_000);
         ctx.run("random", CaseCfg::cases(n).choices(200).same_thread(), random_case);
         lap("random", t);
     }
     if want("valueops") {
         let t = std::time::Instant::now();
-        let n = ctx.scale(60_000, 1_500_000);
+        let n = ctx.scale(200_000, 3_000_000);
         ctx.run("valueops", CaseCfg::cases(n).choices(120).same_thread(), valueops_case);
         lap("valueops", t);
     }
@@ -1018,6 +1024,6 @@ pub fn run(ctx: &Ctx) {
     ctx.assume("accepted either way and counted: signed MIN / -1, `**` with mixed operand signedness, replicated x/z sign bit, unary + on x/z, the signed flag of a result value");
     ctx.finish(
         "exploration",
-        "exhaustive: every operator x operand widths 1..4 (unary 1..6) x all 4-state values x signedness x context widths (own, +1, 64, 65; thorough also +2, 7, 32, 63, 70), one evidence case per configuration; random: operand widths 1..256 with 31/32/33/63/64/65/127/128/129/255/256 over-weighted, corner-biased values and x/z masks; lang: generated const expressions through the real analyzer. non-trivial = an operand or the context uses a boundary width, or an operand has x/z; distinct by case text",
+        "exhaustive: every operator x operand widths 1..4 (unary 1..6) x all 4-state values x signedness x context widths (own, +1, 63, 64, 65; thorough also +2, 7, 32, 70), one evidence case per configuration; random: operand widths 1..256 with 31/32/33/63/64/65/127/128/129/255/256 over-weighted, corner-biased values and x/z masks; lang: generated const expressions through the real analyzer. non-trivial = an operand or the context uses a boundary width, or an operand has x/z; distinct by case text",
     );
 }
